@@ -1140,3 +1140,497 @@ Example ex_filename :
   no_percent "/data" /\ no_percent "20260930" /\
   filename (make_directory "/data" "20260930" 7) "err12" "ljh" = Some "/data/20260930/0007/20260930_run0007_err12.ljh"%string.
 Proof. repeat split; try discriminate. Qed.
+
+(* ================================================================ what the observable checker's "true" means *)
+
+Lemma znodupb_NoDup l : znodupb l = true <-> NoDup l.
+Proof.
+  induction l as [|x r IH]; cbn [znodupb]; [split; [constructor | reflexivity]|].
+  rewrite andb_true_iff, negb_true_iff, IH. split.
+  - intros [H1 H2]. constructor; [|exact H2]. intro K. apply zmem_In in K. congruence.
+  - intro H. inversion H as [|? ? Hx Hr]; subst. split; [|exact Hr].
+    destruct (zmem x r) eqn:E; [apply zmem_In in E; contradiction | reflexivity].
+Qed.
+
+Lemma evens_dup {A} (L : list A) : evens (dup L) = L.
+Proof. induction L as [|x L IH]; [reflexivity|]. cbn [dup flat_map app evens]. fold (dup L). now rewrite IH. Qed.
+
+Lemma groups_disjointb_pdisj gs : groups_disjointb gs = true <-> pdisj gs.
+Proof.
+  induction gs as [|g r IH]; cbn [groups_disjointb pdisj]; [split; auto|].
+  rewrite andb_true_iff, IH, forallb_forall, Forall_forall. unfold gdisj.
+  split; intros [H1 H2]; split; auto; intros h Hh; specialize (H1 h Hh); lia.
+Qed.
+
+Lemma group_count_pos x gs : 0 < group_count x gs -> exists g, In g gs /\ in_grp x g.
+Proof.
+  induction gs as [|g r IH]; cbn [group_count fold_right]; [lia|]. fold (group_count x r).
+  destruct (in_group x g) eqn:E.
+  - intros _. exists g. split; [now left|]. unfold in_group in E. unfold in_grp. lia.
+  - intro H. destruct (IH H) as [h [Hh Hx]]. exists h. split; [now right | exact Hx].
+Qed.
+
+Lemma groups_coverb_sound nums gs :
+  groups_coverb nums gs = true ->
+  (forall x, In x nums <-> exists g, In g gs /\ in_grp x g) /\ pdisj gs.
+Proof.
+  unfold groups_coverb. rewrite !andb_true_iff. intros [[H1 H2] H3].
+  split; [|now apply groups_disjointb_pdisj].
+  rewrite forallb_forall in H1, H2. intro x. split.
+  - intro Hx. apply group_count_pos. specialize (H1 x Hx). lia.
+  - intros [g [Hg Hx]]. specialize (H2 g Hg). rewrite forallb_forall in H2.
+    apply zmem_In. apply H2. apply zrange_In. exact Hx.
+Qed.
+
+Lemma rc_matches_true code g :
+  rc_matches code g = true <->
+  rc_row code = g_row g /\ rc_col code = g_col g /\ rc_rows code = g_rows g /\ rc_cols code = g_cols g.
+Proof. unfold rc_matches. rewrite !andb_true_iff, !Z.eqb_eq. tauto. Qed.
+
+Lemma znth_cons2 {A} (d : A) a b l k : 2 <= k -> znth d (a :: b :: l) k = znth d l (k - 2).
+Proof.
+  intro Hk. unfold znth. destruct (k <? 0) eqn:E1; [lia|]. destruct (k - 2 <? 0) eqn:E2; [lia|].
+  replace (Z.to_nat k) with (S (S (Z.to_nat (k - 2)))) by lia. reflexivity.
+Qed.
+Lemma znth_cons1 {A} (d : A) a l k : 1 <= k -> znth d (a :: l) k = znth d l (k - 1).
+Proof.
+  intro Hk. unfold znth. destruct (k <? 0) eqn:E1; [lia|]. destruct (k - 1 <? 0) eqn:E2; [lia|].
+  replace (Z.to_nat k) with (S (Z.to_nat (k - 1))) by lia. reflexivity.
+Qed.
+
+Lemma lancero_pairsb_sound gs : forall names nums rcs subs,
+  lancero_pairsb gs names nums rcs subs = true ->
+  nums = dup (evens nums) /\ names = names_of (evens nums) /\ zlen (evens nums) = zlen gs /\
+  forall p, 0 <= p < 2 * zlen gs -> rc_matches (znth 0 rcs p) (znth geo0 gs (p / 2)) = true.
+Proof.
+  induction gs as [|g gs IH]; intros names nums rcs subs H.
+  - destruct names, nums, rcs, subs; try discriminate. cbn. repeat split. intros p Hp. unfold zlen in Hp; cbn in Hp; lia.
+  - destruct names as [|n1 [|n2 names]]; try discriminate; destruct nums as [|x1 [|x2 nums]]; try discriminate;
+      destruct rcs as [|r1 [|r2 rcs]]; try discriminate; destruct subs as [|s1 [|s2 subs]]; try discriminate.
+    cbn [lancero_pairsb] in H. rewrite !andb_true_iff in H.
+    destruct H as [[[[[H1 H2] H3] H4] H5] H6].
+    apply Z.eqb_eq in H1. apply String.eqb_eq in H2, H3. subst x2 n1 n2.
+    destruct (IH _ _ _ _ H6) as (I1 & I2 & I3 & I4).
+    cbn [evens dup names_of flat_map app]. fold (dup (evens nums)). fold (names_of (evens nums)).
+    rewrite <- I1, <- I2. rewrite !zlen_cons. repeat split; try lia.
+    intros p Hp.
+    destruct (Z.eq_dec p 0) as [->|N0]; [exact H4|].
+    destruct (Z.eq_dec p 1) as [->|N1]; [exact H5|].
+    rewrite znth_cons2 by lia.
+    replace (p / 2) with ((p - 2) / 2 + 1).
+    2:{ replace p with ((p - 2) + 1 * 2) at 2 by lia. rewrite Z.div_add by lia. reflexivity. }
+    assert (0 <= (p - 2) / 2) by (apply Z.div_pos; lia).
+    rewrite znth_cons1 by lia. replace ((p - 2) / 2 + 1 - 1) with ((p - 2) / 2) by lia.
+    apply I4. lia.
+Qed.
+
+(* A Lancero table accepted by the checker has the property, whatever produced it. *)
+Lemma check_lancero_sound cards t mixed order :
+  check_lancero cards t mixed order = true ->
+  let n := zlen (lancero_geos cards) in
+  NoDup (map c_dev cards) /\
+  zlen (t_nums t) = 2 * n /\
+  (forall p q, 0 <= p < 2 * n -> 0 <= q < 2 * n ->
+     (znth 0 (t_nums t) p = znth 0 (t_nums t) q <-> p / 2 = q / 2)) /\
+  NoDup (t_names t) /\
+  (forall x, In x (t_nums t) <-> exists g, In g (t_groups t) /\ in_grp x g) /\ pdisj (t_groups t) /\
+  (forall p, 0 <= p < 2 * n ->
+     let g := znth geo0 (lancero_geos cards) (p / 2) in let c := znth 0 (t_rc t) p in
+     rc_row c = g_row g /\ rc_col c = g_col g /\ rc_rows c = g_rows g /\ rc_cols c = g_cols g).
+Proof.
+  unfold check_lancero. rewrite !andb_true_iff. intros [[[[[[H0 H1] H2] H3] H4] H5] H6]. cbv zeta.
+  destruct (lancero_pairsb_sound _ _ _ _ _ H1) as (A1 & A2 & A3 & A4).
+  apply znodupb_NoDup in H2. destruct (groups_coverb_sound _ _ H3) as [C1 C2].
+  set (L := evens (t_nums t)) in *. set (n := zlen (lancero_geos cards)) in *.
+  split; [now apply znodupb_NoDup|].
+  split; [rewrite A1, dup_length; lia|].
+  split.
+  { intros p q Hp Hq. rewrite A1. rewrite !dup_znth by lia. split.
+    - intro E. apply (NoDup_znth_inj L); auto.
+      + split; [apply Z.div_pos; lia | apply Z.div_lt_upper_bound; lia].
+      + split; [apply Z.div_pos; lia | apply Z.div_lt_upper_bound; lia].
+    - intros ->. reflexivity. }
+  split; [rewrite A2; now apply names_of_NoDup|].
+  split; [exact C1|]. split; [exact C2|].
+  intros p Hp. apply rc_matches_true. apply A4. exact Hp.
+Qed.
+Lemma singlesb_sound gs : forall names nums rcs subs,
+  singlesb gs names nums rcs subs = true ->
+  names = map chan_name nums /\ zlen nums = zlen gs /\
+  forall p, 0 <= p < zlen gs -> rc_matches (znth 0 rcs p) (znth geo0 gs p) = true.
+Proof.
+  induction gs as [|g gs IH]; intros names nums rcs subs H.
+  - destruct names, nums, rcs, subs; try discriminate. cbn. repeat split. intros p Hp. unfold zlen in Hp; cbn in Hp; lia.
+  - destruct names as [|n1 names]; try discriminate; destruct nums as [|x1 nums]; try discriminate;
+      destruct rcs as [|r1 rcs]; try discriminate; destruct subs as [|s1 subs]; try discriminate.
+    cbn [singlesb] in H. rewrite !andb_true_iff in H. destruct H as [[H1 H2] H3].
+    apply String.eqb_eq in H1. subst n1. destruct (IH _ _ _ _ H3) as (I1 & I2 & I3).
+    cbn [map]. rewrite <- I1, !zlen_cons. repeat split; try lia.
+    intros p Hp. destruct (Z.eq_dec p 0) as [->|N0]; [exact H2|].
+    rewrite !znth_cons1 by lia. apply I3. lia.
+Qed.
+
+Lemma snodupb_NoDup l : snodupb l = true <-> NoDup l.
+Proof.
+  induction l as [|x r IH]; cbn [snodupb]; [split; [constructor | reflexivity]|].
+  rewrite andb_true_iff, negb_true_iff, IH. split.
+  - intros [H1 H2]. constructor; [|exact H2]. intro K.
+    assert (existsb (String.eqb x) r = true) by (apply existsb_exists; exists x; split; [exact K | apply String.eqb_refl]).
+    congruence.
+  - intro H. inversion H as [|? ? Hx Hr]; subst. split; [|exact Hr].
+    destruct (existsb (String.eqb x) r) eqn:E; [|reflexivity].
+    apply existsb_exists in E as [y [Hy E]]. apply String.eqb_eq in E. subst. contradiction.
+Qed.
+
+Lemma check_abaco_sound pk t :
+  check_abaco pk t = true ->
+  (forall g, In g (t_groups t) <-> In g (announced pk)) /\
+  t_nums t = gnums (t_groups t) /\ NoDup (t_nums t) /\
+  t_names t = map chan_name (t_nums t) /\ NoDup (t_names t) /\
+  (forall x, In x (t_nums t) <-> exists g, In g (t_groups t) /\ in_grp x g) /\ pdisj (t_groups t).
+Proof.
+  unfold check_abaco. rewrite !andb_true_iff. intros [[[[[[[H1 H2] H3] H4] H5] H6] H7] H8].
+  destruct (singlesb_sound _ _ _ _ _ H4) as (A1 & A2 & A3).
+  apply zlist_eqb_eq in H5. apply znodupb_NoDup in H6. destruct (groups_coverb_sound _ _ H7) as [C1 C2].
+  assert (GM : forall g l, gmem g l = true <-> In g l).
+  { intros g l. unfold gmem. rewrite existsb_exists. split.
+    - intros [h [Hh E]]. unfold gidx_eqb in E. apply andb_true_iff in E as [E1 E2].
+      apply Z.eqb_eq in E1, E2. destruct g, h; cbn in *; subst; auto.
+    - intro Hg. exists g. split; auto. unfold gidx_eqb. now rewrite !Z.eqb_refl. }
+  rewrite forallb_forall in H1, H2.
+  assert (N : t_nums t = gnums (t_groups t)).
+  { rewrite H5. clear. induction (t_groups t) as [|g r IH]; [reflexivity|]. cbn [abaco_nums gnums flat_map]. now rewrite IH. }
+  split; [intro g; split; intro Hg; apply GM; [now apply H1 | now apply H2]|].
+  split; [exact N|]. split; [exact H6|]. split; [exact A1|].
+  split; [rewrite A1; now apply chan_names_NoDup|]. split; [exact C1 | exact C2].
+Qed.
+
+Lemma files_identb_sound t source with_off : forall cf i,
+  files_identb t source with_off i cf = true ->
+  forall k, 0 <= k < zlen cf ->
+    let f := znth (mkCF EmptyString 0 EmptyString EmptyString EmptyString (status_ident t source 0) None) cf k in
+    let id := status_ident t source (i + k) in
+    f_dspname f = i_chname id /\ f_dspnum f = i_chnum id /\ ident_eqb (f_hd f) id = true /\
+    (with_off = true -> exists h, f_offhd f = Some h /\ ident_eqb h id = true) /\
+    (with_off = false -> f_offhd f = None).
+Proof.
+  induction cf as [|f r IH]; intros i H k Hk; [unfold zlen in Hk; cbn in Hk; lia|].
+  cbn [files_identb] in H. rewrite !andb_true_iff in H. destruct H as [[[[H1 H2] H3] H4] H5].
+  rewrite zlen_cons in Hk. destruct (Z.eq_dec k 0) as [->|N].
+  - cbv zeta. replace (i + 0) with i by lia. cbn [znth Z.ltb Z.compare Z.to_nat nth].
+    apply String.eqb_eq in H1. apply Z.eqb_eq in H2. repeat split; auto.
+    + intros ->. destruct (f_offhd f) as [h|]; [exists h; cbn in H4; auto | discriminate].
+    + intros ->. destruct (f_offhd f) as [h|]; [cbn in H4; discriminate | reflexivity].
+  - cbv zeta. rewrite znth_cons1 by lia. replace (i + k) with (i + 1 + (k - 1)) by lia.
+    apply (IH (i + 1) H5 (k - 1)). lia.
+Qed.
+
+Lemma check_files_sound t source with_off cf nfiles :
+  check_files t source with_off cf nfiles = true ->
+  zlen cf = zlen (t_names t) /\
+  NoDup (map f_ljh cf ++ map f_ljh3 cf ++ (if with_off then map f_off cf else [])) /\
+  forall k, 0 <= k < zlen cf ->
+    let f := znth (mkCF EmptyString 0 EmptyString EmptyString EmptyString (status_ident t source 0) None) cf k in
+    let id := status_ident t source k in
+    f_dspname f = i_chname id /\ f_dspnum f = i_chnum id /\ ident_eqb (f_hd f) id = true /\
+    (with_off = true -> exists h, f_offhd f = Some h /\ ident_eqb h id = true).
+Proof.
+  unfold check_files. rewrite !andb_true_iff. intros [[[[H1 H2] H3] H4] H5].
+  split; [lia|]. split; [now apply snodupb_NoDup|].
+  intros k Hk. pose proof (files_identb_sound _ _ _ _ _ H2 k Hk) as X. cbv zeta in X.
+  replace (0 + k) with k in X by lia. cbv zeta. tauto.
+Qed.
+
+(* ================================================================ chan2readoutOrder *)
+
+Lemma pairs_range_nat b : forall n r,
+  flat_map (fun row => [b + 2 * row; b + 2 * row + 1]) (zrange_nat r n) = zrange_nat (b + 2 * r) (2 * n).
+Proof.
+  induction n as [|n IH]; intro r; [reflexivity|].
+  replace (2 * S n)%nat with (S (S (2 * n))) by lia. cbn [zrange_nat flat_map app].
+  rewrite IH. f_equal. f_equal. f_equal. lia.
+Qed.
+
+Lemma flat_map_ext_in {A B} (f g : A -> list B) l : (forall x, In x l -> f x = g x) -> flat_map f l = flat_map g l.
+Proof.
+  induction l as [|x l IH]; intro H; [reflexivity|]. cbn [flat_map].
+  rewrite (H x (or_introl eq_refl)), IH; [reflexivity|]. intros y Hy. apply H. now right.
+Qed.
+
+Lemma map_flat_map {A B C} (h : B -> C) (f : A -> list B) l : map h (flat_map f l) = flat_map (fun x => map h (f x)) l.
+Proof. induction l as [|x l IH]; [reflexivity|]. cbn [flat_map]. now rewrite map_app, IH. Qed.
+
+(* all positions 0 .. ncols*nrows*2-1, grouped by column and row *)
+Lemma positions_by_col_row nrows : 0 <= nrows -> forall k a,
+  flat_map (fun col => flat_map (fun row => [(col * nrows + row) * 2; (col * nrows + row) * 2 + 1]) (zrange 0 nrows))
+           (zrange_nat a k)
+  = zrange_nat (a * nrows * 2) (k * Z.to_nat nrows * 2).
+Proof.
+  intros Hn. induction k as [|k IH]; intro a; [reflexivity|].
+  cbn [zrange_nat flat_map]. rewrite IH.
+  rewrite (flat_map_ext_in _ (fun row => [a * nrows * 2 + 2 * row; a * nrows * 2 + 2 * row + 1]))
+    by (intros row _; f_equal; [lia | f_equal; lia]).
+  unfold zrange. rewrite pairs_range_nat.
+  replace (S k * Z.to_nat nrows * 2)%nat with (2 * Z.to_nat nrows + k * Z.to_nat nrows * 2)%nat by lia.
+  rewrite zrange_nat_app. f_equal; [f_equal; lia|]. f_equal. lia.
+Qed.
+
+Lemma chan_order_dev_eq d prev : 0 <= c_ncols d -> 0 <= c_nrows d ->
+  chan_order_dev (c_ncols d) (c_nrows d) prev = card_order d prev.
+Proof.
+  intros Hc Hr. unfold chan_order_dev, card_order.
+  set (C := c_ncols d) in *. set (R := c_nrows d) in *.
+  assert (E : zrange 0 (C * R * 2) =
+              flat_map (fun col => flat_map (fun row => [(col * R + row) * 2; (col * R + row) * 2 + 1]) (zrange 0 R)) (zrange 0 C)).
+  { unfold zrange at 3. rewrite positions_by_col_row by lia. unfold zrange. f_equal. nia. }
+  rewrite E, map_flat_map. apply flat_map_ext_in. intros col Hcol. rewrite map_flat_map.
+  apply flat_map_ext_in. intros row Hrow. apply zrange_In in Hcol, Hrow. cbn [map].
+  assert (D0 : ((col * R + row) * 2) / 2 = col * R + row) by (apply Z.div_mul; lia).
+  assert (D1 : ((col * R + row) * 2 + 1) / 2 = col * R + row).
+  { symmetry. apply Z.div_unique with 1; lia. }
+  assert (M0 : ((col * R + row) * 2) mod 2 = 0) by (apply Z.mod_mul; lia).
+  assert (M1 : ((col * R + row) * 2 + 1) mod 2 = 1).
+  { symmetry. apply Z.mod_unique with (col * R + row); lia. }
+  assert (Mr : (col * R + row) mod R = row).
+  { symmetry. apply Z.mod_unique with col; lia. }
+  assert (Dr : (col * R + row) / R = col).
+  { symmetry. apply Z.div_unique with row; lia. }
+  rewrite D0, D1, M0, M1, Mr, Dr. f_equal; [lia | f_equal; lia].
+Qed.
+
+Lemma chan_order_eq devs : dims_nonneg devs -> forall prev, chan_order devs prev = lancero_order devs prev.
+Proof.
+  induction devs as [|d r IH]; intros D prev; [reflexivity|].
+  inversion D as [|? ? [Hc Hr] D']; subst. cbn [chan_order lancero_order].
+  rewrite chan_order_dev_eq by assumption. now rewrite IH.
+Qed.
+
+(* ================================================================ the model's Lancero tables pass the checker *)
+
+Lemma flat_map_flat_map {A B C} (f : B -> list C) (g : A -> list B) l :
+  flat_map f (flat_map g l) = flat_map (fun x => flat_map f (g x)) l.
+Proof. induction l as [|x l IH]; [reflexivity|]. cbn [flat_map]. now rewrite flat_map_app, IH. Qed.
+
+Lemma flat_map_map {A B C} (f : B -> list C) (g : A -> B) l : flat_map f (map g l) = flat_map (fun x => f (g x)) l.
+Proof. induction l as [|x l IH]; [reflexivity|]. cbn [map flat_map]. now rewrite IH. Qed.
+
+Lemma dev_subs_geos cards : dev_subs cards = flat_map (fun g => [g_row g; 0]) (lancero_geos cards).
+Proof.
+  unfold dev_subs, lancero_geos. rewrite flat_map_flat_map. apply flat_map_ext_in. intros d _.
+  unfold col_subs, card_geos. rewrite flat_map_flat_map. apply flat_map_ext_in. intros col _.
+  rewrite flat_map_map. reflexivity.
+Qed.
+
+Definition geo_field (g : geo) : Prop :=
+  0 <= g_row g < 65536 /\ 0 <= g_col g < 65536 /\ 0 <= g_rows g < 65536 /\ 0 <= g_cols g < 65536.
+
+Lemma rc_matches_code g : geo_field g -> rc_matches (geo_code g) g = true.
+Proof.
+  intros (H1 & H2 & H3 & H4). apply rc_matches_true. unfold geo_code. apply rc_decode; assumption.
+Qed.
+
+Lemma lancero_pairsb_complete gs : forall L,
+  length L = length gs -> Forall geo_field gs ->
+  lancero_pairsb gs (names_of L) (dup L) (dup (map geo_code gs)) (flat_map (fun g => [g_row g; 0]) gs) = true.
+Proof.
+  induction gs as [|g gs IH]; intros L HL F.
+  - destruct L; [reflexivity | discriminate].
+  - destruct L as [|x L]; [discriminate|]. inversion F as [|? ? Fg Fr]; subst.
+    cbn [names_of dup map flat_map app lancero_pairsb].
+    fold (names_of L). fold (dup L). fold (dup (map geo_code gs)).
+    rewrite Z.eqb_refl, !String.eqb_refl, !rc_matches_code by assumption. cbn [andb].
+    apply IH; [cbn in HL; lia | assumption].
+Qed.
+
+Lemma lancero_geos_field cards : dims_in_field cards -> Forall geo_field (lancero_geos cards).
+Proof.
+  intro F. apply Forall_forall. intros g Hg. apply In_lancero_geos in Hg as (d & Hd & G1 & G2 & G3 & G4).
+  unfold dims_in_field in F. rewrite Forall_forall in F. specialize (F d Hd). unfold geo_field. lia.
+Qed.
+
+Lemma group_count_zero x gs : (forall g, In g gs -> ~ in_grp x g) -> group_count x gs = 0.
+Proof.
+  induction gs as [|g r IH]; intro H; [reflexivity|]. cbn [group_count fold_right]. fold (group_count x r).
+  destruct (in_group x g) eqn:E.
+  - exfalso. apply (H g (or_introl eq_refl)). unfold in_group in E. unfold in_grp. lia.
+  - apply IH. intros h Hh. apply H. now right.
+Qed.
+
+Lemma group_count_one x gs g : pdisj gs -> In g gs -> in_grp x g -> group_count x gs = 1.
+Proof.
+  induction gs as [|h r IH]; intros P Hg Hx; [destruct Hg|].
+  cbn [pdisj] in P. destruct P as [P1 P2]. rewrite Forall_forall in P1.
+  cbn [group_count fold_right]. fold (group_count x r).
+  destruct Hg as [->|Hg].
+  - assert (E : in_group x g = true) by (unfold in_group; unfold in_grp in Hx; lia). rewrite E.
+    rewrite group_count_zero; [reflexivity|]. intros k Hk Hxk. exact (gdisj_no_common g k x (P1 k Hk) Hx Hxk).
+  - destruct (in_group x h) eqn:E.
+    + exfalso. assert (in_grp x h) by (unfold in_group in E; unfold in_grp; lia).
+      exact (gdisj_no_common h g x (P1 g Hg) H Hx).
+    + eapply IH; eauto.
+Qed.
+
+Lemma groups_coverb_complete nums gs :
+  (forall x, In x nums <-> exists g, In g gs /\ in_grp x g) -> pdisj gs -> groups_coverb nums gs = true.
+Proof.
+  intros C P. unfold groups_coverb. rewrite !andb_true_iff. repeat split.
+  - apply forallb_forall. intros x Hx. apply C in Hx as [g [Hg Hxg]].
+    rewrite (group_count_one x gs g P Hg Hxg). reflexivity.
+  - apply forallb_forall. intros g Hg. apply forallb_forall. intros x Hx. apply zmem_In. apply C.
+    exists g. split; [exact Hg | now apply zrange_In].
+  - now apply groups_disjointb_pdisj.
+Qed.
+
+Lemma lancero_model_passes_checker s s' t :
+  NoDup (map c_dev (l_active s)) -> dims_in_field (l_active s) ->
+  lancero_prepare s = (s', Some t) ->
+  check_lancero (l_active s) t (l_mixed s') (chan_order (l_active s') 0) = true.
+Proof.
+  intros ND F H.
+  assert (D : dims_nonneg (l_active s)).
+  { unfold dims_nonneg, dims_in_field in *. rewrite Forall_forall in *. intros d Hd. specialize (F d Hd). lia. }
+  destruct (lancero_identity _ _ _ ND D H) as (A1 & A2 & A3 & A4 & A5 & A6 & A7 & A8).
+  destruct (lancero_groups_cover _ _ _ ND D H) as [C1 C2].
+  assert (ACT : l_active s' = l_active s).
+  { destruct (lancero_prepare_accept _ _ _ H) as (? & ? & ? & ? & _ & _ & -> & _). reflexivity. }
+  unfold check_lancero. rewrite !andb_true_iff. repeat split.
+  - now apply znodupb_NoDup.
+  - rewrite A1, A2, A5, A7, dev_subs_geos. apply lancero_pairsb_complete.
+    + unfold zlen in A6. lia.
+    + now apply lancero_geos_field.
+  - rewrite A1, evens_dup. now apply znodupb_NoDup.
+  - now apply groups_coverb_complete.
+  - rewrite A8. reflexivity.
+  - destruct (forallb (fun d => 1 <=? c_nrows d) (l_active s)) eqn:E; [|reflexivity].
+    destruct (l_active s) as [|d r] eqn:EA.
+    + cbn. destruct (lancero_prepare_accept _ _ _ H) as (es & gs & sd & mx & N & -> & -> & _).
+      unfold lancero_number in N. rewrite EA in N. cbn in N. injection N as <- <- <- <-. reflexivity.
+    + assert (R : Forall (fun d => 1 <= c_nrows d) (d :: r)).
+      { apply Forall_forall. intros x Hx. rewrite forallb_forall in E. specialize (E x Hx). lia. }
+      rewrite <- EA in R. destruct (lancero_subframe_facts _ _ _ H R ltac:(rewrite EA; discriminate)) as (S1 & S2 & S3).
+      rewrite <- EA. rewrite S1, S3, Z.eqb_refl. cbn [andb]. rewrite EA. destruct (rows_mixed (d :: r)); reflexivity.
+  - apply zlist_eqb_eq. rewrite ACT. now apply chan_order_eq.
+Qed.
+
+(* ================================================================ Abaco: the order in which packets (map keys) are visited is irrelevant *)
+
+Lemma gidx_eqb_eq a b : gidx_eqb a b = true <-> a = b.
+Proof.
+  unfold gidx_eqb. rewrite andb_true_iff, !Z.eqb_eq. destruct a, b; cbn. split; [intros [-> ->]; reflexivity | intro E; inversion E; auto].
+Qed.
+
+Lemma gmem_In g l : existsb (gidx_eqb g) l = true <-> In g l.
+Proof.
+  rewrite existsb_exists. split.
+  - intros [h [Hh E]]. apply gidx_eqb_eq in E. now subst.
+  - intro H. exists g. split; [exact H | now apply gidx_eqb_eq].
+Qed.
+
+Lemma group_keys_spec pk : forall seen,
+  NoDup seen ->
+  NoDup (group_keys pk seen) /\
+  forall g, In g (group_keys pk seen) <-> In g seen \/ In g (announced pk).
+Proof.
+  induction pk as [|[n off] rest IH]; intros seen ND; cbn [group_keys announced map].
+  - split; [exact ND | intro g; cbn; tauto].
+  - fold (announced rest). cbn [fst snd].
+    destruct (existsb (gidx_eqb (off, n)) seen) eqn:E.
+    + apply gmem_In in E. destruct (IH seen ND) as [I1 I2]. split; [exact I1|].
+      intro g. rewrite I2. cbn [In]. split; [tauto|]. intros [H|[<-|H]]; auto.
+    + assert (ND' : NoDup (seen ++ [(off, n)])).
+      { apply NoDup_app_intro; [exact ND | repeat constructor; intros [] |].
+        intros x Hx [<-|[]]. apply gmem_In in Hx. congruence. }
+      destruct (IH _ ND') as [I1 I2]. split; [exact I1|].
+      intro g. rewrite I2, in_app_iff. cbn [In]. tauto.
+Qed.
+
+Lemma announced_perm pk pk' : Permutation pk pk' -> Permutation (announced pk) (announced pk').
+Proof. intro P. unfold announced. now apply Permutation_map. Qed.
+
+Lemma group_keys_perm pk pk' : Permutation pk pk' -> Permutation (group_keys pk []) (group_keys pk' []).
+Proof.
+  intro P. destruct (group_keys_spec pk [] (NoDup_nil _)) as [N1 S1].
+  destruct (group_keys_spec pk' [] (NoDup_nil _)) as [N2 S2].
+  apply NoDup_Permutation; auto. intro g. rewrite S1, S2. cbn [In].
+  split; intros [[]|H]; right.
+  - eapply Permutation_in; [apply announced_perm; exact P | exact H].
+  - eapply Permutation_in; [apply announced_perm, Permutation_sym; exact P | exact H].
+Qed.
+
+Lemma gsorted_head_min x l : gsorted (x :: l) -> forall y, In y l -> fst x <= fst y.
+Proof.
+  revert x; induction l as [|h t IH]; intros x S y Hy; [destruct Hy|].
+  cbn [gsorted] in S. destruct S as [S1 S2]. destruct Hy as [<-|Hy]; [exact S1|].
+  specialize (IH h S2 y Hy). lia.
+Qed.
+
+Lemma gsorted_tail x l : gsorted (x :: l) -> gsorted l.
+Proof. destruct l; cbn [gsorted]; tauto. Qed.
+
+Lemma sorted_perm_unique a : forall b,
+  gsorted a -> gsorted b -> Permutation a b -> NoDup (map fst a) -> a = b.
+Proof.
+  induction a as [|x a IH]; intros b Sa Sb P ND.
+  - apply Permutation_nil in P. now subst.
+  - destruct b as [|y b]; [apply Permutation_sym, Permutation_nil in P; discriminate|].
+    assert (E : x = y).
+    { assert (Hx : In x (y :: b)) by (eapply Permutation_in; [exact P | now left]).
+      assert (Hy : In y (x :: a)) by (eapply Permutation_in; [apply Permutation_sym; exact P | now left]).
+      destruct Hx as [->|Hx]; [reflexivity|]. destruct Hy as [->|Hy]; [reflexivity|].
+      pose proof (gsorted_head_min _ _ Sa y Hy). pose proof (gsorted_head_min _ _ Sb x Hx).
+      assert (F : fst x = fst y) by lia.
+      cbn [map] in ND. inversion ND as [|? ? Nx _]; subst. exfalso. apply Nx. rewrite F. now apply in_map. }
+    subst y. f_equal. apply IH.
+    + eapply gsorted_tail; eauto.
+    + eapply gsorted_tail; eauto.
+    + eapply Permutation_cons_inv; eauto.
+    + cbn [map] in ND. now inversion ND.
+Qed.
+
+Lemma firsts_distinct gs :
+  NoDup gs -> NoDup (gnums gs) -> Forall (fun g => 1 <= snd g) gs -> NoDup (map fst gs).
+Proof.
+  induction gs as [|g r IH]; intros N1 N2 F; [constructor|].
+  inversion N1 as [|? ? Ng N1']; subst. inversion F as [|? ? Fg Fr]; subst.
+  cbn [gnums flat_map] in N2. fold (gnums r) in N2. apply NoDup_app_inv in N2 as (_ & N2' & N3).
+  cbn [map]. constructor; [|auto].
+  intro H. apply in_map_iff in H as [h [E Hh]].
+  rewrite Forall_forall in Fr. specialize (Fr h Hh).
+  apply (N3 (fst g)).
+  - apply zrange_In. lia.
+  - apply In_gnums. exists h. split; [exact Hh | unfold in_grp; lia].
+Qed.
+
+Lemma sum_perm (a b : list gidx) : Permutation a b ->
+  forall acc, fold_left (fun s g => s + snd g) a acc = fold_left (fun s g => s + snd g) b acc.
+Proof.
+  induction 1; intro acc; cbn [fold_left]; auto.
+  - f_equal. lia.
+  - now rewrite IHPermutation1.
+Qed.
+
+Lemma abaco_order_irrelevant_lemma pk pk' :
+  Permutation pk pk' -> Forall (fun p => 1 <= fst p) pk -> abaco_sample pk = abaco_sample pk'.
+Proof.
+  intros P F. pose proof (group_keys_perm _ _ P) as PG.
+  unfold abaco_sample.
+  destruct (overlap_scan (group_keys pk []) []) eqn:E1; destruct (overlap_scan (group_keys pk' []) []) eqn:E2.
+  - reflexivity.
+  - exfalso. apply overlap_scan_false in E2 as [ND _].
+    assert (overlap_scan (group_keys pk []) [] = false).
+    { apply overlap_scan_false. split; [|intros x _ []]. eapply Permutation_NoDup; [|exact ND]. apply gnums_perm. now apply Permutation_sym. }
+    congruence.
+  - exfalso. apply overlap_scan_false in E1 as [ND _].
+    assert (overlap_scan (group_keys pk' []) [] = false).
+    { apply overlap_scan_false. split; [|intros x _ []]. eapply Permutation_NoDup; [|exact ND]. now apply gnums_perm. }
+    congruence.
+  - apply overlap_scan_false in E1 as [ND _]. f_equal. f_equal; [|now apply sum_perm].
+    destruct (group_keys_spec pk [] (NoDup_nil _)) as [N1 S1].
+    apply sorted_perm_unique; try apply gsort_sorted.
+    + rewrite gsort_perm, PG. symmetry. apply gsort_perm.
+    + assert (FG : Forall (fun g => 1 <= snd g) (group_keys pk [])).
+      { apply Forall_forall. intros g Hg. apply S1 in Hg as [[]|Hg]. unfold announced in Hg.
+        apply in_map_iff in Hg as [p [<- Hp]]. rewrite Forall_forall in F. exact (F p Hp). }
+      pose proof (firsts_distinct _ N1 ND FG) as FD.
+      eapply Permutation_NoDup; [|exact FD]. apply Permutation_map. symmetry. apply gsort_perm.
+Qed.
